@@ -2,7 +2,7 @@
 \* more big cases, more sampled indices, complete outputs of dense cases up to N = 1024.
 SPECIFICATION Spec
 CONSTANTS AllUnits257 = TRUE  Degs257 = {1, 2, 3}  MaxBlow257 = 128  NRnd = 4
-          BigSizes = {64, 128, 256, 512, 1024, 2048, 4096, 8192}  NSparse = 20  NDense = 20  KIdx = 200  FullUpTo = 2048
-          Fams = {"small97", "small257", "sparse", "dense", "pidx", "rows"}
+          BigSizes = {64, 128, 256, 512, 1024, 2048, 4096, 8192}  NSparse = 20  NDense = 20  KIdx = 200  FullUpTo = 2048  NGrid = 3
+          Fams = {"small97", "small257", "sparse", "dense", "grid", "pidx", "rows"}
 ACTION_CONSTRAINT Emit
 CHECK_DEADLOCK FALSE
